@@ -5,7 +5,8 @@ matrix (`toMatrixWith`) and comes back (`fromMatrix`) as the same cells, numbers
 sorted triangle, so every matrix entry is found again; `matrix_to_triangle` spaces the development
 axis by `min(exp, dev)` like `MatrixIndex._resolve_dev_ndx` (D10). The inference of the two
 resolutions (gcd of differences) is NOT part of the theorem: the index is a parameter and the
-triangle is assumed to lie on its grid.
+triangle is assumed to lie on its grid (that the inferred index does put a contiguous triangle on
+its grid is `matrixIndex_onGrid`, Lemmas/FrameMatrixIndex.lean).
 -/
 import Bermuda.Lemmas.FrameArray
 namespace Bermuda.Frame
